@@ -449,6 +449,46 @@ func (tt *TermTable) bin(op Op, a, b *Term) *Term {
 		if b.Op == OpConst && b.Val == 1 {
 			return a
 		}
+	case OpURem:
+		if b.Op == OpConst && b.Val > 0 {
+			c := b.Val
+			if c&(c-1) == 0 {
+				return tt.bin(OpBAnd, a, tt.Const(w, c-1))
+			}
+			m := umax(a)
+			if m < c {
+				return a
+			}
+			if m/c < 4 && m < mask(w)/2 {
+				// x in [0, 4c): subtract c up to three times
+				var r *Term
+				// build nested: if a>=3c then a-3c elif a>=2c then a-2c elif a>=c then a-c else a
+				r = a
+				for k := uint64(1); k <= m/c; k++ {
+					kc := tt.Const(w, k*c)
+					r = tt.Ite(tt.cmp(OpULe, kc, a), tt.bin(OpSub, a, kc), r)
+				}
+				return r
+			}
+			// (x + k) % c with small k: share the divider of x % c (exact, including 2^w wrap-around)
+			if a.Op == OpAdd && a.B.Op == OpConst && a.A.Op != OpConst && a.B.Val > 0 && a.B.Val < 3*c && a.B.Val < mask(w)/8 && c < mask(w)/8 {
+				x, k := a.A, a.B.Val
+				rx := tt.bin(OpURem, x, b) // x % c, umax c-1
+				small := func(v *Term, bound uint64) *Term {
+					// v % c for v known (semantically) to be < bound
+					r := v
+					for j := uint64(1); j*c < bound; j++ {
+						jc := tt.Const(w, j*c)
+						r = tt.Ite(tt.cmp(OpULe, jc, v), tt.bin(OpSub, v, jc), r)
+					}
+					return r
+				}
+				noWrap := tt.cmp(OpULe, x, tt.Const(w, mask(w)-k))
+				nw := small(tt.bin(OpAdd, rx, tt.Const(w, k)), c+k)
+				wr := small(a, k) // wrapped sum is < k
+				return tt.Ite(noWrap, nw, wr)
+			}
+		}
 	case OpShl, OpLShr, OpAShr:
 		if b.Op == OpConst && b.Val == 0 {
 			return a
@@ -579,6 +619,15 @@ func umax(t *Term) uint64 {
 	case OpURem:
 		if t.B.Op == OpConst && t.B.Val > 0 {
 			return t.B.Val - 1
+		}
+	case OpAdd:
+		a, b := umax(t.A), umax(t.B)
+		if s := a + b; s >= a && s <= mask(t.W) {
+			return s
+		}
+	case OpUDiv:
+		if t.B.Op == OpConst && t.B.Val > 0 {
+			return umax(t.A) / t.B.Val
 		}
 	case OpLShr:
 		if t.B.Op == OpConst && t.B.Val < 64 {
